@@ -34,9 +34,13 @@ def language_tables(repo):
         table[sl.value] = str_list(val)
     if not table or order is None:
         raise AnalysisError("FileLanguage tables not found")
+    dup = {}
     for lang in order:
         for e in table.get(lang, []):
+            if e in ext_lang and ext_lang[e] != lang:
+                dup.setdefault(e, [ext_lang[e]]).append(lang)
             ext_lang.setdefault(e, lang)
+    language_tables.duplicates = dup
     # languages served by get_file_source
     g = repo.func("file_source", "get_file_source")
     served = set()
@@ -56,10 +60,21 @@ def language_tables(repo):
     return exts, ext_lang, served
 
 
+def r4_dups(ctx):
+    exts, ext_lang, served = language_tables(ctx.repo)
+    fl = ctx.repo.cls("language", "FileLanguage")
+    for e, langs in sorted(getattr(language_tables, "duplicates", {}).items()):
+        ctx.violation(f"language:FileLanguage:extension-in-two-languages:{e}", f"extension {e} is listed for {langs}: the first language in _supported_languages wins, so files of the other language are scanned with the wrong line source (comment syntax, directives)", fl.loc())
+    ctx.ok("language:FileLanguage:extensions-unambiguous")
+    for e in exts:
+        ctx.ok(f"language:FileLanguage:extension:{e}:{ext_lang.get(e)}")
+
+
 @rule("C17.R4", "language tables: every accepted Fortran extension has a line source")
 def r4(ctx):
     exts, ext_lang, served = language_tables(ctx.repo)
     f = ctx.repo.func("source", "is_source_file")
+    r4_dups(ctx)
     n = 0
     for e in exts:
         lang = ext_lang.get(e)
@@ -181,11 +196,11 @@ def r2(ctx):
     f = repo.func("file_source", "fortran_file_source")
     cw = [c for c in f.calls() if callee(c) == "c_file_source"]
     ok = len(cw) == 1 and u(cw[0].args[0]) == f.params[0] and {k.arg: u(k.value) for k in cw[0].keywords}.get("directives_only") == "True"
-    ctx.check(ok, "file_source:fortran_file_source:c-pass-directives-only", f"the Fortran source must be fed by c_file_source(fp, directives_only=True): {[u(c) for c in cw]}", f.loc())
+    ctx.soft(ok, "file_source:fortran_file_source:c-pass-directives-only", f"the Fortran source must be fed by c_file_source(fp, directives_only=True): {[u(c) for c in cw]}", f.loc())
     c = repo.func("file_source", "c_file_source")
     mk = [x for x in c.calls() if callee(x) == "c_cleaner"]
     ok = len(mk) == 1 and u(mk[0].args[1] if len(mk[0].args) > 1 else mk[0].keywords[0].value) == c.params[2]
-    ctx.check(ok, "file_source:c_file_source:passes-directives_only", "directives_only must reach the cleaner", c.loc())
+    ctx.soft(ok, "file_source:c_file_source:passes-directives_only", "directives_only must reach the cleaner", c.loc())
     ex = Extracted(repo, "c_cleaner")
     for ch in C_ALPHABET:
         for cat in ("EMPTY", "BLANK", "SRC"):
@@ -237,15 +252,15 @@ def r3(ctx):
     inc = repo.cls("preprocessor", "IncludeNode").find_method("evaluate_for_platform")
     t = u(inc.node)
     ok = "lang = kwargs['state'].langs[kwargs['filename']]" in t and "kwargs['state'].insert_file(include_file, lang)" in t
-    ctx.check(ok, "preprocessor:IncludeNode.evaluate_for_platform:passes-language", "the language recorded for the including file must be handed to insert_file", inc.loc())
+    ctx.soft(ok, "preprocessor:IncludeNode.evaluate_for_platform:passes-language", "the language recorded for the including file must be handed to insert_file", inc.loc())
     pf = repo.func("file_parser", "FileParser.parse_file")
     gs = [c for c in pf.calls() if callee(c) == "get_file_source"]
     ok = len(gs) == 1 and [u(a) for a in gs[0].args] == ["filename", "language"]
-    ctx.check(ok, "file_parser:FileParser.parse_file:language-to-source", "the inherited language must select the line source", pf.loc())
+    ctx.soft(ok, "file_parser:FileParser.parse_file:language-to-source", "the inherited language must select the line source", pf.loc())
     g = repo.func("file_source", "get_file_source")
     t = u(g.node)
     ok = "if assumed_lang:\n        lang = assumed_lang" in t or _re.search(r"if assumed_lang:\s+lang = assumed_lang", t) is not None
-    ctx.check(ok, "file_source:get_file_source:assumed-language-wins", "an inherited language must override the extension", g.loc())
+    ctx.soft(ok, "file_source:get_file_source:assumed-language-wins", "an inherited language must override the extension", g.loc())
     arms = {}
     for n in walk_no_nested(g.node):
         if isinstance(n, ast.If) and isinstance(n.test, ast.Compare) and dotted(n.test.left) == "lang":
@@ -253,5 +268,5 @@ def r3(ctx):
             if r:
                 arms[u(n.test.comparators[0])] = u(r[0])
     ok = arms.get("'fortran-free'") == "fortran_file_source" and arms.get("['c', 'c++']") == "c_file_source"
-    ctx.check(ok, "file_source:get_file_source:arms", f"language -> source table: {arms}", g.loc())
+    ctx.soft(ok, "file_source:get_file_source:arms", f"language -> source table: {arms}", g.loc())
     ctx.floor(7)
